@@ -9,21 +9,26 @@ func C04Members() []func(a *App) {
 		// 0: a type with three fields
 		func(a *App) {
 			t := typeT(a)
+			t.Attrs = append(t.Attrs, Attr{Key: "t0", Tag: true})
 			t.Fields = append(t.Fields, &Field{Name: "a", T: prim("int")}, &Field{Name: "b", T: TypeExpr{Prim: "string", Opt: true}}, &Field{Name: "c", T: TypeExpr{RefApp: []string{"Other"}, Ref: []string{"U"}, Wrap: "sequence"}})
 		},
 		// 1: the same type re-opened with a fourth field
 		func(a *App) {
 			t := typeT(a)
+			// header attributes of a re-opening block: a name/value pair, an array and a tag
+			t.Attrs = append(t.Attrs, Attr{Key: "owner", Val: Str("crm")}, Attr{Key: "lst", Val: Arr(Str("x"), Str("y"))}, Attr{Key: "t1", Tag: true})
 			t.Fields = append(t.Fields, &Field{Name: "d", T: TypeExpr{Prim: "decimal", Size: "(5.2)"}})
 		},
 		// 2: a table with a key
 		func(a *App) {
 			t := tab(a)
+			t.Attrs = append(t.Attrs, Attr{Key: "sch", Val: Str("s")})
 			t.Fields = append(t.Fields, &Field{Name: "id", T: prim("int"), Attrs: []Attr{{Key: "pk", Tag: true}}}, &Field{Name: "v", T: TypeExpr{Prim: "string", Size: "(10)"}})
 		},
 		// 3: the same table re-opened with a second key column
 		func(a *App) {
 			t := tab(a)
+			t.Attrs = append(t.Attrs, Attr{Key: "tb", Tag: true}, Attr{Key: "part", Val: Str("p2")})
 			t.Fields = append(t.Fields, &Field{Name: "k2", T: prim("int"), Attrs: []Attr{{Key: "pk", Tag: true}}}, &Field{Name: "w", T: prim("date")})
 		},
 		// 4: a simple endpoint with statements
